@@ -241,7 +241,7 @@ def read(b, r, ids):
 
 
 def own_case(backend, wdir, w, m, r, victim):
-    """victim: 'passed' (object given to the store) | 'got_list' | 'got_id' (object handed out)"""
+    """victim: 'passed' (object given to the store) | 'got_list' | 'got_limit1' | 'got_window' | 'got_id' (object handed out by a read) | 'returned' (object handed back by the write)"""
     ds = S.fresh(backend, wdir)
     S.mk_bucket(ds, "o")
     b = ds["o"]
@@ -249,19 +249,20 @@ def own_case(backend, wdir, w, m, r, victim):
     sid = seed.id if seed is not None and seed.id is not None else b.get(-1)[0].id
     e = Event(timestamp=T0 + timedelta(seconds=5), duration=2, data=deepcopy(NESTED))
     passed = [e]
+    ret = None
     if w == "insert":
-        b.insert(e)
+        ret = b.insert(e)
     elif w == "bulk":
         e2 = Event(timestamp=T0 + timedelta(seconds=9), duration=3, data=deepcopy(NESTED))
         passed.append(e2)
-        b.insert([e, e2])
+        ret = b.insert([e, e2])
     elif w == "upsert":
         e.id = sid
-        b.insert([e])
+        ret = b.insert([e])
     elif w == "replace":
-        b.replace(sid, e)
+        ret = b.replace(sid, e)
     elif w == "replace_last":
-        b.replace_last(e)
+        ret = b.replace_last(e)
     ids = sorted(t[0] for t in S.dump_bucket(ds, "o"))
     first = {rr: read(b, rr, ids) for rr in READS}
     if victim == "passed":
@@ -270,6 +271,18 @@ def own_case(backend, wdir, w, m, r, victim):
     elif victim == "got_list":
         for x in b.get(-1):
             mutate(x, m)
+    elif victim == "got_limit1":
+        # a positive limit below the bucket size is another code path (seeded: a fast path for "latest N")
+        for x in b.get(1):
+            mutate(x, m)
+    elif victim == "got_window":
+        for x in b.get(-1, T0 - timedelta(hours=1), T0 + timedelta(hours=1)):
+            mutate(x, m)
+    elif victim == "returned":
+        # whatever the write call handed back (the memory store returned the very object it had just stored)
+        for x in ret if isinstance(ret, (list, tuple)) else [ret]:
+            if isinstance(x, Event):
+                mutate(x, m)
     else:
         for i in ids:
             x = b.get_by_id(i)
@@ -329,7 +342,7 @@ def _unit_own(backend):
     u = Unit()
     wdir = ctx.wdir()
     for w, m, r in itertools.product(WRITES, MUTATIONS, READS):
-        for victim in ("passed", "got_list", "got_id"):
+        for victim in ("passed", "got_list", "got_id", "got_limit1", "got_window", "returned"):
             u.evaluations += 1
             u.transitions += 1
             u.states += 1
